@@ -31,8 +31,10 @@ META = {
                    "unless an applicable target's residue contains it and the modification lists its name, an attribute is unchanged "
                    "unless such a modification lists it, interactions are only appended on atoms of an applicable target, "
                    "non-applicable targets are the identity, listed values are set; the model is compared with the real "
-                   "ApplyModifications on the implementation's own pre-state. Multi-residue (from_itp) blocks are checked by the "
-                   "judge only, not modelled."),
+                   "ApplyModifications on the implementation's own pre-state. Multi-residue (from_itp) blocks: the same fold with the "
+                   "first block shifted to the first residue id (add_blocks_m); theorems: layout = shifted copies, residue ids "
+                   "contiguous from the first id for blocks numbered 1..k, unlabelled multi-residue blocks rejected; compared with "
+                   "the real MapToMolecule on sequences of multi- and single-residue block instances."),
     'level_note': ("Trusted: Coq kernel, harness, vermouth's .ff reader and merge_molecule (modelled by hand, validated by the runs). "
                    "No axioms. Hypotheses: contiguous residue ids, non-empty single-residue blocks (the quantifier's domain)."),
     'rule': ("cases = generated force fields (1-3 blocks of 1-4 atoms with bonds/angles/constraints/dihedrals/pairs/exclusions, "
@@ -422,8 +424,25 @@ C +A 1 0.4 500
 """
 
 
+# the blocks of MULTI_FF for the model: (name, type, block residue id, residue name, charge group, charge, mass)
+MULTI_BLOCKS = {
+    'DIM': {'atoms': [('A', 'P1', 1, 'RA', 1, 0.0, 72.0), ('B', 'P1', 1, 'RA', 2, 0.5, 36.0), ('C', 'P2', 2, 'RB', 3, -0.5, 45.0)],
+            'bonds': [([0, 1], ['1', '0.3', '1000']), ([1, 2], ['1', '0.3', '1000'])]},
+    'RC': {'atoms': [('D', 'C1', 1, 'RC', 1, 0.0, 72.0)], 'bonds': []},
+}
+
+
+def coq_multi_block(name):
+    b = MULTI_BLOCKS[name]
+    atoms = "[" + "; ".join(f"Build_atom {lit(n)} {lit(t)} {r} {lit(rn)} {cg} {lit(repr(ch))} {lit(repr(ms))}" for n, t, r, rn, cg, ch, ms in b['atoms']) + "]"
+    inters = "[" + "; ".join(f"Build_inter \"bonds\" {lit(ats)} {lit(ps)} []" for ats, ps in b['bonds']) + "]"
+    return f"(Build_block {atoms} {inters} 1)"
+
+
 def multi_residue_cases(ctx):
-    """residues that stem from a multi-residue block (from_itp): judged from the statement (not modelled)"""
+    """residues that stem from a multi-residue block (from_itp): judged from the statement and compared with the
+    model add_blocks_m (one entry per block instance)"""
+    exprs, keep = [], []
     import contextlib
     import io
     import networkx as nx
@@ -477,6 +496,25 @@ def multi_residue_cases(ctx):
         nb = len(mol.interactions.get('bonds', []))
         if nb != 2 * nc:
             ctx.violation('spec', f"multi-residue block: {nb} bonds after mapping, the block defines 2 per copy ({nc} copies)", rep)
+        inst = ([(False, 'RC')] if lead else []) + [(True, 'DIM')] * nc + ([(False, 'RC')] if tail else [])
+        exprs.append(f"show (add_blocks_m {r0} [" + '; '.join(f"({lit(f)}, {coq_multi_block(n)})" for f, n in inst) + "])")
+        keep.append((rep, ffgen.snapshot(mol)))
+    try:
+        res = core.coq_eval_cases(ctx, 'multi', PRELUDE, exprs, chunk=60)
+    except core.CoqEvalError as exc:
+        ctx.note(str(exc)[:800])
+        ctx.broken.append('correspondence:MapToMolecule (multi-residue blocks) vs model (evaluation failed)')
+        return
+    mism = 0
+    for (rep, snap), r in zip(keep, res):
+        if norm_model(r) != norm_impl(snap):
+            mism += 1
+            if mism <= 3:
+                ctx.note(f"correspondence (multi-residue blocks {rep}): model {str(norm_model(r))[:300]} != impl {str(norm_impl(snap))[:300]}")
+                ctx.extra.setdefault('disagreements', []).append(rep)
+    ctx.extra['multi_correspondence'] = {'cases': len(keep), 'mismatches': mism}
+    if mism:
+        ctx.broken.append('correspondence:MapToMolecule (multi-residue blocks) vs model add_blocks_m')
 
 
 def search(ctx):
